@@ -421,7 +421,7 @@ theorem iat_eq_spec (v : View) : iatTryFrom v = specIat v := by
     obtain ⟨rva, size⟩ := p
     obtain ⟨_, hlt⟩ := dataDir_lt hd
     dsimp only
-    unfold View.dervaSlice
+    rw [dervaSlice_unfold]
     have hle : vaSize v.fmt * (size / vaSize v.fmt) ≤ size := Nat.mul_div_le _ _
     rw [if_neg (by omega), Nat.mul_comm]
     cases v.at (.rva rva) (size / vaSize v.fmt * vaSize v.fmt) (vaSize v.fmt) <;> rfl
